@@ -1,4 +1,5 @@
 """C17 — powder temperature sensitivity is linear, anchored and reproduces calibration."""
+from vlib import shotgen as sg
 from vlib.common import Corr, Failure, f2b, import_repo
 
 ID = 'C17'
@@ -127,12 +128,27 @@ def search(chk, broken):
                                         {'op': 'linear', 'v0': v0, 't0': t0, 'modifier': m, 'tq': tq, 'observed': got, 'expected': exp}))
         # --- calibration reproduces the second measurement
         a = pbc.Ammo(dm, V(v0), T(t0), 0, True)
+        hist = ''
+        r = rng.random()
+        if r < 0.2:
+            # a long-lived ammunition: its quantities were displayed in other units (in-place <<) before the calibration
+            sg.scramble_units(pbc, rng, a)
+            hist = ' [quantities of the ammo re-labelled with << before the calibration]'
+        elif r < 0.35:
+            a.mv = V(v0)
+            a.powder_temp = T(t0)
+            hist = ' [mv / powder_temp re-assigned (same magnitudes, other units) before the calibration]'
+        elif r < 0.5:
+            pbc.PreferredUnits.velocity, pbc.PreferredUnits.temperature = rng.choice(VU), rng.choice(TU)
+            hist = f' [preferred units changed to {pbc.PreferredUnits.velocity.name}/{pbc.PreferredUnits.temperature.name} after construction]'
         a.calc_powder_sens(V(v1), T(t1))
         got = a.get_velocity_for_temp(T(t1)) >> U.MPS
-        if abs(got - v1) > 1e-9 * v1:
-            order = ('faster' if dv > 0 else 'slower') + '+' + ('warmer' if dt > 0 else 'colder')
+        gotb = a.get_velocity_for_temp(T(t0)) >> U.MPS
+        pbc.PreferredUnits.defaults()
+        if abs(got - v1) > 1e-9 * v1 or abs(gotb - v0) > 1e-9 * v0:
+            order = ('faster' if dv > 0 else 'slower') + '+' + ('warmer' if dt > 0 else 'colder') + ('+history' if hist else '')
             chk.failures.append(Failure(f'calibration:{order}',
-                                        f'baseline {v0:.3f} m/s @ {t0:.2f} C, second {v1:.3f} m/s @ {t1:.2f} C ({order}): '
+                                        f'baseline {v0:.3f} m/s @ {t0:.2f} C (reproduced as {gotb:.4f}){hist}, second {v1:.3f} m/s @ {t1:.2f} C ({order}): '
                                         f'calibrated ammo predicts {got:.4f} m/s at the second temperature',
                                         {'op': 'calibration', 'v0': v0, 't0': t0, 'v1': v1, 't1': t1, 'observed': got, 'expected': v1,
                                          'python': f'from py_ballisticcalc import *; a=Ammo(DragModel(0.3,TableG7),Unit.MPS({v0!r}),Unit.Celsius({t0!r}),0,True); '
